@@ -213,7 +213,14 @@ def synthetic_case(draw, lang):
         t = draw(tg.types(u, R, depth=1, force_generic=True, proj=False))
         if t is not None and R.wf(t):
             extra.append(t)
-    which = draw(st.sampled_from(['sub', 'sub', 'irr']))
+    which = draw(st.sampled_from(['sub', 'sub', 'irr', 'irr']))
+    if which == 'irr' and draw(st.booleans()):
+        # irrelevant-type queries on classes that inherit from an instantiation of a generic class (the candidates then
+        # contain the parent's bare constructor, whose re-instantiation must avoid the parent's own arguments)
+        heirs = [('c', k) for k in u.order if not u.table.cls[k]['params'] and u.table.cls[k]['supers'] and
+                 u.table.cls[k]['supers'][0][0] == 'i']
+        if heirs:
+            q = draw(st.sampled_from(heirs))
     return u, q, extra, which, draw(st.booleans()), draw(st.booleans()), draw(st.integers(0, 10 ** 6))
 
 
@@ -227,7 +234,9 @@ def exec_synthetic(u, q, extra, which, include_self, concrete_only, seed, rec):
         if which == 'sub':
             tu.find_subtypes(q_ir, types, include_self=include_self, concrete_only=concrete_only)
         else:
-            tu.find_irrelevant_type(q_ir, types, u.factory)
+            for j in range(6):
+                utils.random.r = random.Random(seed * 7 + j)
+                tu.find_irrelevant_type(q_ir, types, u.factory)
 
 
 def run_synthetic(spec, col, n):
